@@ -704,6 +704,20 @@ def check_property(pid, tier, seed):
         for f in relevant_fail:
             violations.append(report_failure(pid, f, cfg))
         violations.extend(purity_viol)
+        # ---- cheap cross-check on every run: the witness library and the sub-second finders are executed on the real
+        # library although every obligation may have been discharged; a hit is a violation that replays on the real code
+        # (this is what notices a change in a part the contracts only ASSUME, e.g. what the package checksum covers)
+        if not violations:
+            w = find_witness(pid, deep=False)
+            cov["cheap_cross_check_against_real_code"] = {"finders": "witness library" + (", fault enumeration on the serialized package" if pid == "C09" else "") + (", executable next() contract at boundary counters" if pid == "C14" else ""),
+                                                          "refutation_found": bool(w), "stats": _WITNESS_STATS.get(pid)}
+            if w:
+                rp = os.path.join(REPLAYS, "%s-crosscheck.json" % pid)
+                rj = dict(w[0]); rj.update({"property": pid, "label": "cross-check refutation although all obligations were discharged", "source": w[2]})
+                json.dump(rj, open(rp, "w"), indent=1)
+                rc2, lines2, err2 = run_replay(rp, timeout_s=60)
+                if rc2 == 1:
+                    violations.append({"label": "cross-check: %s" % w[1][0][:200], "replay": rp, "confirmed": True, "detail": w[1][:3]})
         # ---- thorough extras
         if tier == "thorough":
             cov["bounded_checks"] = []
@@ -829,11 +843,14 @@ _WITNESS_CACHE = {}
 _WITNESS_STATS = {}
 
 
-def find_witness(pid):
+def find_witness(pid, deep=True):
     """a concrete history / schedule that violates property pid on the REAL library (excluding the clauses of
-    open known findings): first the committed witness library, then a bounded search in the replay binary."""
-    if pid in _WITNESS_CACHE:
-        return _WITNESS_CACHE[pid]
+    open known findings): first the committed witness library and the cheap finders (fault enumeration on the
+    package, executable next() contract), then - only if `deep` - a bounded search in the replay binary."""
+    if (pid, deep) in _WITNESS_CACHE:
+        return _WITNESS_CACHE[(pid, deep)]
+    if not deep and (pid, True) in _WITNESS_CACHE and _WITNESS_CACHE[(pid, True)]:
+        return _WITNESS_CACHE[(pid, True)]
     known = load_known()
     excl = sorted(set(k["expect_clause"] for k in known.get("open", []) if k["property"] == pid))
     res = None
@@ -867,7 +884,7 @@ def find_witness(pid):
         hits = [l for l in lines if l.startswith("REPLAY-VIOLATION") and "property=C14 " in l]
         if rc == 1 and hits:
             res = ({"kind": "uuid_contract"}, hits, "executable form of the next() contract at boundary counter values")
-    if res is None and pid not in ("C09", "C14"):
+    if res is None and pid not in ("C09", "C14") and deep:
         sp = os.path.join(REPLAYS, "search-%s.json" % pid)
         q = {"kind": "search", "property": pid, "depth": 4, "budget_ms": 25000, "exclude": excl}
         # clauses that are the executable form of the PROVED contracts (not of the ideal property) count only
@@ -882,7 +899,7 @@ def find_witness(pid):
         hits = [l for l in lines if l.startswith("REPLAY-VIOLATION") and ("property=%s " % pid) in l]
         if rc == 1 and found and hits:
             res = (json.loads(found[0][len("REPLAY-FOUND "):]), hits, "bounded search in the replay binary (level histories to depth 4 / queue histories to depth 7)")
-    _WITNESS_CACHE[pid] = res
+    _WITNESS_CACHE[(pid, deep)] = res
     return res
 
 
